@@ -28,6 +28,11 @@ type c17Case struct {
 	// is being handed over), "bdat-rset", "bdat-ok", "data-refused". The
 	// client API has no BDAT, so through the client only the last one is used.
 	Prior string `json:"prior,omitempty"`
+	// Helo: the wire conversation greets with HELO instead of EHLO
+	Helo bool `json:"helo,omitempty"`
+	// SendMail: the client conversation uses Client.SendMail (one call for
+	// envelope and message) instead of Mail, Rcpt, Data
+	SendMail bool `json:"sendmail,omitempty"`
 }
 
 const c17Msg = "hello\r\n" // the judged message (DATA: before the end marker)
@@ -166,6 +171,12 @@ func c17Classify(c c17Case) Verdict {
 	if c.Prior != "" && c.Source != "NewSession" {
 		v.Classes = append(v.Classes, "after_"+c.Prior)
 	}
+	if c.Helo && c.Via == "wire" {
+		v.Classes = append(v.Classes, "greeted_with_helo")
+	}
+	if c.SendMail && c.Via == "client" && c.Source != "NewSession" {
+		v.Classes = append(v.Classes, "through_client_sendmail")
+	}
 	v.Classes = append(v.Classes, "source_"+c.Source, "via_"+c.Via, "kind_"+c.D.Kind)
 	return v
 }
@@ -180,7 +191,11 @@ func c17RunWire(c c17Case) Verdict {
 	}
 	w.Recv()
 	var cv conv
-	cv.cmd("EHLO cli")
+	if c.Helo {
+		cv.cmd("HELO cli")
+	} else {
+		cv.cmd("EHLO cli")
+	}
 	priorWire, nPrior := c17Prior(c)
 	cv.raw(priorWire)
 	idx := 1 // banner, EHLO, MAIL, RCPT, (354,) final
@@ -335,6 +350,11 @@ func c17RunClient(c c17Case) Verdict {
 			pw.Write([]byte("x\r\n"))
 			pw.Close()
 		}
+		if c.SendMail {
+			// whichever callback fails, the one call reports it
+			got, reached = cl.SendMail("s@x", []string{"r@x"}, strings.NewReader(c17Msg)), true
+			return
+		}
 		if err := cl.Mail("s@x", nil); err != nil {
 			if c.Source == "Mail" {
 				got, reached = err, true
@@ -445,7 +465,10 @@ func c17GenDecision(t *rapid.T) harness.Decision {
 		}
 		return harness.Decision{Kind: "plain", Msg: m}
 	}
-	code := rapid.SampledFrom([]int{421, 450, 451, 452, 455, 499, 501, 503, 504, 521, 550, 551, 552, 553, 554, 555, 571, 599}).Draw(t, "code")
+	code := rapid.SampledFrom([]int{421, 450, 451, 452, 455, 499, 500, 501, 502, 503, 504, 521, 550, 551, 552, 553, 554, 555, 571, 599}).Draw(t, "code")
+	if rapid.IntRange(0, 4).Draw(t, "any_code") == 0 {
+		code = rapid.IntRange(400, 599).Draw(t, "code_any")
+	}
 	d := harness.Decision{Kind: "smtp", Code: code, Msg: c17GenMsg(t, "msg")}
 	switch rapid.IntRange(0, 4).Draw(t, "enh") {
 	case 0:
@@ -474,6 +497,7 @@ func TestC17(t *testing.T) {
 		return c17Case{Source: rapid.SampledFrom([]string{"NewSession", "Mail", "Rcpt", "Data"}).Draw(rt, "source"), D: c17GenDecision(rt),
 			Via: rapid.SampledFrom([]string{"wire", "client"}).Draw(rt, "via"), BDAT: rapid.Bool().Draw(rt, "bdat"),
 			Limit: rapid.SampledFrom([]string{"", "", "exact", "above"}).Draw(rt, "limit"),
-			Prior: rapid.SampledFrom([]string{"", "", "", "bdat-failed-chunk", "bdat-rset", "bdat-ok", "data-refused"}).Draw(rt, "prior")}
+			Prior: rapid.SampledFrom([]string{"", "", "", "bdat-failed-chunk", "bdat-rset", "bdat-ok", "data-refused"}).Draw(rt, "prior"),
+			Helo: rapid.IntRange(0, 3).Draw(rt, "helo") == 0, SendMail: rapid.IntRange(0, 2).Draw(rt, "sendmail") == 0}
 	})
 }
